@@ -388,3 +388,250 @@ def shard_job(job):
             "distinct": len(seen), "nontrivial": nontriv, "relaxed_differs": relax, "hist": hist,
             "tv_states": st2[1], "rejects": out, "samples": samples,
             "t": [round(t1 - t0, 1), round(t2 - t1, 1), round(t3 - t2, 1)]}
+
+
+# --------------------------------------------------------------------------
+# the check
+
+API_SITE = {"C17.path": "gfapy/line/group/ordered/captured_path.py:captured_path",
+            "C17.path-error-missed": "gfapy/line/group/ordered/captured_path.py:captured_path",
+            "C17.path-error-spurious": "gfapy/line/group/ordered/captured_path.py:captured_path",
+            "C17.set": "gfapy/line/group/unordered/induced_set.py:induced_set",
+            "C17.set-error": "gfapy/line/group/unordered/induced_set.py:induced_set",
+            "C17.items": "gfapy/line/group/gfa2/same_id.py:_process_not_unique",
+            "C17.tags": "gfapy/line/group/gfa2/same_id.py:_process_not_unique",
+            "C17.validate": "gfapy/gfa.py:validate"}
+
+
+def _answers(rec):
+    out = []
+    for q in rec["q"]:
+        for k, nm in zip("abc", QUERIES.get(q["rt"], ("-", "-", "-"))):
+            a = q[k]
+            out.append("%s.%s -> %s" % (q["id"], nm, " ".join(x["id"] + x["o"] for x in a["w"]) if a["r"] == "ok" else a["r"]))
+    return out
+
+
+def violation_of(rj):
+    case, rec, clauses = rj["case"], rj["rec"], rj["clauses"]
+    lines = arrival(case)
+    grp = [CAT.line_text(ld) for ld in case["lines"]]
+    site = ""
+    if "foreign" in clauses:
+        for n in rec["notes"]:
+            if "@" in n:
+                site = n.split("@", 1)[1]
+    else:
+        site = API_SITE.get(clauses[0], "")
+    return dict(family="groups", clauses=clauses, input="\n".join(grp), api="Gfa.add_line;group queries",
+                callsite=site, fam=rj["fam"], case=case, document=lines,
+                expected_strict=[[c[0], c[2]] for c in case["cls"]], observed=_answers(rec),
+                adds=[[l, e["res"]] for l, e in zip(lines, rec["ev"])], validate=rec["val"], notes=rec["notes"],
+                what="%s on graph G%d + %s (strict expectation %s; gfapy: %s)" % (
+                    ",".join(clauses), case["g"], " / ".join(g.replace("\t", " ") for g in grp),
+                    ", ".join("%s=%s" % (c[0], c[2]) for c in case["cls"]),
+                    "; ".join(a for a in _answers(rec) if a.split(".")[1].startswith(("captured_path", "induced_set ")))))
+
+
+def run_families(fams, name):
+    jobs = []
+    for f in fams:
+        for sh in range(f["nsh"]):
+            jobs.append((f, sh, "%s/%s-%d" % (name, f["name"], sh)))
+    tlc.workdir(name)
+    # big shards first
+    with MPool(processes=min(tlc.NCPU, len(jobs))) as mp:
+        res = mp.map(shard_job, jobs, chunksize=1)
+    return res
+
+
+def check_c17(out, tier, seed):
+    selftest()
+    fams = families(tier)
+    res = run_families(fams, "groups-" + tier)
+    tot = dict(cases=0, distinct=0, nontrivial=0, relaxed=0, mc=0, mcg=0, tv=0)
+    hist, perfam = {}, {}
+    rejects = []
+    for r in res:
+        tot["cases"] += r["cases"]
+        tot["distinct"] += r["distinct"]
+        tot["nontrivial"] += r["nontrivial"]
+        tot["relaxed"] += r["relaxed_differs"]
+        tot["mc"] += r["mc_states"]
+        tot["mcg"] += r["mc_generated"]
+        tot["tv"] += r["tv_states"]
+        for k, v in r["hist"].items():
+            hist[k] = hist.get(k, 0) + v
+        pf = perfam.setdefault(r["fam"], {"cases": 0, "rejected": 0})
+        pf["cases"] += r["distinct"]
+        pf["rejected"] += len(r["rejects"])
+        rejects += r["rejects"]
+        if r["sh"] == 0 and len(out.samples) < 8:
+            out.samples += r["samples"][:1]
+    mach = [rj for rj in rejects if any(c.startswith("harness") for c in rj["clauses"])]
+    if mach:
+        raise tlc.MachineryError("harness clause(s) %s on %s" % (mach[0]["clauses"], arrival(mach[0]["case"])))
+    # keep up to 12 examples per (family, clause set), smallest inputs first, seeded tie-break
+    rnd = random.Random(seed)
+    groups = {}
+    for rj in rejects:
+        groups.setdefault((rj["fam"], tuple(rj["clauses"])), []).append(rj)
+    clause_hist = {}
+    for (fam, cl), lst in sorted(groups.items()):
+        clause_hist["%s:%s" % (fam, "+".join(cl))] = len(lst)
+        rnd.shuffle(lst)
+        lst.sort(key=lambda rj: sum(len(l[2]) for l in rj["case"]["lines"]))
+        for rj in lst[:12]:
+            out.violations.append(violation_of(rj))
+        if "foreign" in cl:
+            out.others["C07"] = out.others.get("C07", 0) + len(lst)
+    out.violations.sort(key=lambda v: (len(v["input"]), v["input"]))
+    out.add_cov(evaluations=tot["distinct"], distinct_nontrivial=tot["nontrivial"],
+                cases_enumerated_by_tlc=tot["cases"], spec_states=tot["mc"], spec_states_generated=tot["mcg"],
+                trace_states=tot["tv"], relaxed_reading_matters=tot["relaxed"], rejected_cases=len(rejects),
+                exhaustive=True,
+                expectation_histogram=hist, per_family=perfam, rejected_by_family_and_clause=clause_hist,
+                bounds=[{k: (f[k] if k != "slots" else [{"line": s["rt"] + " " + s["id"], "len": [s["lo"], s["hi"]],
+                                                          "alphabet": " ".join(CAT.item_text(i) for i in s["alph"]),
+                                                          "must_list_one_of": " ".join(CAT.item_text(i) for i in s["must"])}
+                                                         for s in f["slots"]])
+                         for k in ("name", "g", "slots", "arrs", "split", "orders")} for f in fams],
+                rule="every case of every family is enumerated by TLC (MC_Groups: all item sequences within the length "
+                     "bounds over the family's alphabet x cuts into lines x arrival orders x tag sets x arrangements; the "
+                     "space of each family is exhausted, nothing is sampled) and run against gfapy; non-trivial = a case in "
+                     "which the strict expectation of some group is an error kind, a walk with more elements than the "
+                     "group lists (something supplied or inlined), or an induced set larger than the item list; "
+                     "design-level invariants of Groups.tla checked by TLC on every case")
+    out.assumptions += [
+        "TLC 1.8; spec/Groups.tla written from the GFA2 specification text (quoted in the module)",
+        "harness/project.py abstract_text: syntactic abstraction of the lines that were added",
+        "acceptance is relational: any gfapy.Error class, raised at add_line / at the query / by validate; implied "
+        "edges looked for among dovetails or among all E lines; either direction of travel for an E line that is "
+        "not a dovetail written exit->entry; a nested path spliced as items or as its walk; a set over a path "
+        "without unique walk may raise or answer with the mentioned segments; cyclic set nesting may raise a "
+        "gfapy.Error or answer with the fixpoint",
+        "gaps and fragments as group items, anonymous '*' edges, and edges over undefined segments are not enumerated",
+    ]
+
+
+PROPS = {"C17": (check_c17, "exploration")}
+
+
+# --------------------------------------------------------------------------
+# replay of one recorded violation
+
+def _run_single(case, name):
+    gfapy = _load_gfapy()
+    signal.signal(signal.SIGALRM, _alarm)
+    pool = project.Pool()
+    rec = run_case(gfapy, case, pool, 0)
+    rej, _ = validate_records([rec], pool, tlc.workdir(name))
+    return rec, rej.get(0, [])
+
+
+def replay(prop, v, path):
+    case = v["case"]
+    rec, clauses = _run_single(case, "groups-replay")
+    for l, e in zip(arrival(case), rec["ev"]):
+        print("  add_line(%r) -> %s%s" % (l, e["res"], ("   items now: " + " ".join(x["id"] + x["o"] for x in e["gi"])
+                                                         + "  tags: " + " ".join(e["gt"])) if l[0] in "OU" else ""))
+    for a in _answers(rec):
+        print("  " + a)
+    print("  validate() ->", rec["val"], " notes:", rec["notes"])
+    print("  strict expectation:", [[c[0], c[2]] for c in case["cls"]])
+    if clauses:
+        print("REJECT clauses=%s" % ",".join(clauses))
+        print("VIOLATION property=%s replay=%s" % (prop, path))
+        return 1
+    print("replay passes")
+    return 0
+
+
+# --------------------------------------------------------------------------
+# binding: corrupted records must be rejected, the recorded ones accepted
+
+def selftest():
+    """Hand-made cases (no TLC enumeration): the record of what gfapy did must be accepted as it
+    is, and rejected with the right clause after each corruption."""
+    C = CAT
+    base = [
+        # a path written out in full, cut into two lines with disjoint tags
+        {"g": 1, "arr": 1, "lines": [["O", "o", C.ix("a+ e1+"), 2], ["O", "o", C.ix("b+ e2+ c+"), 3]],
+         "cls": [["o", "O", "walk", False, False]], "from_tlc": False},
+        # a set cut into two lines
+        {"g": 1, "arr": 3, "lines": [["U", "u", C.ix("a"), 2], ["U", "u", C.ix("b d"), 3]],
+         "cls": [["u", "U", "set", True, False]], "from_tlc": False},
+    ]
+    gfapy = _load_gfapy()
+    signal.signal(signal.SIGALRM, _alarm)
+    pool = project.Pool()
+    recs = [run_case(gfapy, c, pool, i) for i, c in enumerate(base)]
+    want = {0: [], 1: []}
+
+    def mutant(i, fn, clause):
+        r = copy.deepcopy(recs[i])
+        r["id"] = len(recs) + len(muts)
+        fn(r)
+        muts.append(r)
+        want[r["id"]] = [clause]
+    muts = []
+
+    def swap_walk(r):
+        w = r["q"][0]["a"]["w"]
+        w[0], w[2] = w[2], w[0]
+
+    def flip_orient(r):
+        w = r["q"][0]["a"]["w"]
+        w[1]["o"] = "-"
+
+    def drop_edge(r):
+        r["q"][0]["c"]["w"] = [x for x in r["q"][0]["c"]["w"] if x["id"] != "e1"]
+
+    def drop_edge_all(r):
+        r["q"][0]["a"]["w"] = [x for x in r["q"][0]["a"]["w"] if x["id"] != "e6"]
+
+    def extra_seg(r):
+        r["q"][0]["b"]["w"].append({"id": "c", "o": ""})
+
+    def reorder_items(r):
+        e = [e for e in r["ev"] if e["gx"] == "ok"][-1]
+        e["gi"][0], e["gi"][-1] = e["gi"][-1], e["gi"][0]
+
+    def drop_tag(r):
+        e = [e for e in r["ev"] if e["gx"] == "ok"][-1]
+        e["gt"] = e["gt"][:1]
+
+    def refuse_second(r):
+        e = [e for e in r["ev"] if e["gx"] == "ok"][-1]
+        e["res"] = "NotUniqueError"
+
+    def seg_list(r):
+        r["q"][0]["b"]["w"] = r["q"][0]["b"]["w"][:-1]
+
+    def raise_instead(r):
+        r["q"][0]["a"] = {"r": "NotFoundError", "w": []}
+        r["q"][0]["b"] = {"r": "NotFoundError", "w": []}
+        r["q"][0]["c"] = {"r": "NotFoundError", "w": []}
+
+    def foreign(r):
+        r["q"][0]["a"] = {"r": "FOREIGN", "w": []}
+
+    mutant(0, swap_walk, "C17.path")
+    mutant(0, flip_orient, "C17.path")
+    mutant(0, seg_list, "C17.path")
+    mutant(0, raise_instead, "C17.path-error-spurious")
+    mutant(0, reorder_items, "C17.items")
+    mutant(0, drop_tag, "C17.tags")
+    mutant(0, refuse_second, "C17.items")
+    mutant(0, foreign, "foreign")
+    mutant(1, drop_edge, "C17.set")
+    mutant(1, drop_edge_all, "C17.set")
+    mutant(1, extra_seg, "C17.set")
+    mutant(1, reorder_items, "C17.items")
+    mutant(1, raise_instead, "C17.set-error")
+    rej, _ = validate_records(recs + muts, pool, tlc.workdir("groups-selftest"))
+    for cid, w in want.items():
+        got = rej.get(cid, [])
+        if (w and not set(w) <= set(got)) or (not w and got):
+            raise tlc.MachineryError("C17 selftest: record %d expected clauses %s, TraceGroups gave %s" % (cid, w, got))
+    return len(muts)
